@@ -31,7 +31,9 @@ Inductive rty :=
 | TTuple (ts : list rty)
 | TArray (t : rty) (n : nat)
 | TSlice (t : rty)                        (* [t] (behind Box) *)
-| TUser (path : list nat) (name : nat) (args : list rty).   (* krate::module::Name<args>, path = krate :: modules *)
+| TUser (path : list ident) (name : ident) (args : list rty).
+  (* krate::module::Name<args>, path = krate :: modules; the crate is a user identifier, modules and the name are ANY
+     identifiers - a user crate may well have a module `string` with a type `String` *)
 
 (* what syn parses a type name into *)
 Inductive past :=
@@ -53,7 +55,7 @@ Fixpoint std_ast (t : rty) : past :=
   | TTuple ts => PTuple (map std_ast ts)
   | TArray a n => PArray (std_ast a) n
   | TSlice a => PSlice (std_ast a)
-  | TUser path name args => PPath false (map (fun s => (IUser s, [])) path ++ [(IUser name, map std_ast args)])
+  | TUser path name args => PPath false (map (fun s => (s, [])) path ++ [(name, map std_ast args)])
   end.
 
 (* the spelling a user writes (prelude names) *)
@@ -69,7 +71,7 @@ Fixpoint short_ast (t : rty) : past :=
   | TTuple ts => PTuple (map short_ast ts)
   | TArray a n => PArray (short_ast a) n
   | TSlice a => PSlice (short_ast a)
-  | TUser path name args => PPath false (map (fun s => (IUser s, [])) path ++ [(IUser name, map short_ast args)])
+  | TUser path name args => PPath false (map (fun s => (s, [])) path ++ [(name, map short_ast args)])
   end.
 
 (* TypeRewriter: the five 3-segment patterns (identifiers only, arguments ignored) *)
@@ -98,8 +100,10 @@ Fixpoint rewrite (a : past) : past :=
 Definition all_some {A} (l : list (option A)) : option (list A) :=
   fold_right (fun o acc => match o, acc with Some x, Some xs => Some (x :: xs) | _, _ => None end) (Some []) l.
 
-Definition user_seg {A} (s : ident * list A) : option nat :=
-  match s with (IUser n, []) => Some n | _ => None end.
+Definition user_seg {A} (s : ident * list A) : option ident :=
+  match s with (i, []) => Some i | _ => None end.
+Definition user_crate {A} (segs : list (ident * list A)) : bool :=
+  match segs with (IUser _, []) :: _ => true | _ => false end.
 
 Definition resolve_path (segs : list (ident * list (option rty))) : option rty :=
   match segs with
@@ -111,14 +115,17 @@ Definition resolve_path (segs : list (ident * list (option rty))) : option rty :
   | [(IOption, [Some x])] => Some (TOption x)
   | [(IResult, [Some x; Some e])] => Some (TResult x e)
   | _ =>
-      match rev segs with
-      | (IUser name, args) :: (_ :: _) as rpath =>
-          match all_some (map user_seg (rev (tl (rev segs)))), all_some args with
-          | Some path, Some targs => Some (TUser path name targs)
-          | _, _ => None
-          end
-      | _ => None
-      end
+      (* a path through one of the user's crates: resolved inside that crate, whatever its modules are called *)
+      if user_crate segs then
+        match rev segs with
+        | (name, args) :: (_ :: _) as rpath =>
+            match all_some (map user_seg (rev (tl (rev segs)))), all_some args with
+            | Some path, Some targs => Some (TUser path name targs)
+            | _, _ => None
+            end
+        | _ => None
+        end
+      else None
   end.
 
 Fixpoint resolve (a : past) : option rty :=
